@@ -10,7 +10,7 @@ import warnings
 
 import numpy as np
 
-from ..snap import OFFGRID, qdiff, snap_int
+from ..snap import qdiff
 
 NA = -1  # not applicable / not measurable
 OFF = -2  # off the integer lattice
@@ -162,22 +162,37 @@ def trunc_grid(maxval, maxlen, cutgrid, maxbonds, renorms):
 
 
 # ----------------------------------------------------------------------------- measurements
-def _snap(x, tol):
-    v = snap_int(x, tol)
-    return OFF if v == OFFGRID else v
+def snap_tols(dtype):
+    """(atol, rtol) of the projection onto the integer lattice.  Relative part small enough that
+    sums of squares of a few hundred still have an unambiguous nearest integer."""
+    return (1e-3, 1e-4) if str(np.dtype(dtype)) in SINGLE else (1e-7, 1e-9)
 
 
-def _snap_list(xs, tol):
+def _snap(x, dtype):
+    atol, rtol = snap_tols(dtype)
+    try:
+        x = complex(x)
+    except Exception:  # noqa
+        return OFF
+    if not (np.isfinite(x.real) and np.isfinite(x.imag)) or abs(x.imag) > atol + rtol * abs(x):
+        return OFF
+    r = round(x.real)
+    if abs(x.real - r) > atol + rtol * abs(x.real) or abs(r) >= 2 ** 30:
+        return OFF
+    return int(r)
+
+
+def _snap_list(xs, dtype):
     out = []
     for x in xs:
-        v = snap_int(x, tol)
-        if v == OFFGRID:
+        v = _snap(x, dtype)
+        if v == OFF:
             return [OFF]
         out.append(v)
     return out
 
 
-def _sv2(F, tol):
+def _sv2(F, dtype):
     if F is None:
         return []
     F = np.asarray(F)
@@ -187,7 +202,7 @@ def _sv2(F, tol):
         sv = np.linalg.svd(F.astype(complex if F.dtype.kind == "c" else float), compute_uv=False)
     except Exception:  # noqa
         return [OFF]
-    return _snap_list(np.sort(sv ** 2)[::-1], tol)
+    return _snap_list(np.sort(sv ** 2)[::-1], dtype)
 
 
 def _iso(F, side, tol):
@@ -197,7 +212,7 @@ def _iso(F, side, tol):
     if not np.all(np.isfinite(F)):
         return False
     G = F.conj().T @ F if side == "L" else F @ F.conj().T
-    return bool(np.max(np.abs(G - np.eye(G.shape[0]))) <= 10 * tol)
+    return bool(np.max(np.abs(G - np.eye(G.shape[0]))) <= 2.5 * tol)
 
 
 def _range_defect(F, A, side, tol):
@@ -207,10 +222,10 @@ def _range_defect(F, A, side, tol):
         return 999998
     if side == "L":
         U, sv, _ = np.linalg.svd(F, full_matrices=False)
-        Q = U[:, sv > 1e3 * tol * max(1.0, sv.max(initial=0.0)) * 1e-3]
+        Q = U[:, sv > tol * max(1.0, sv.max(initial=0.0))]
         return qdiff(Q @ (Q.conj().T @ A), A, tol)
     _, sv, Vh = np.linalg.svd(F, full_matrices=False)
-    Q = Vh[sv > 1e3 * tol * max(1.0, sv.max(initial=0.0)) * 1e-3, :]
+    Q = Vh[sv > tol * max(1.0, sv.max(initial=0.0)), :]
     return qdiff((A @ Q.conj().T) @ Q, A, tol)
 
 
@@ -247,10 +262,10 @@ def measure(A, L, S, R, dtype, rescaled):
         return o
     k = ks.pop()
     o["k"] = int(k)
-    o["svL2"] = _sv2(L, tol)
-    o["svR2"] = _sv2(R, tol)
+    o["svL2"] = _sv2(L, dtype)
+    o["svR2"] = _sv2(R, dtype)
     if S is not None:
-        o["svS2"] = _snap_list(np.abs(S.astype(complex)) ** 2, tol) if np.all(np.isfinite(S)) else [OFF]
+        o["svS2"] = _snap_list(np.abs(S.astype(complex)) ** 2, dtype) if np.all(np.isfinite(S)) else [OFF]
     o["isoL"] = _iso(L, "L", tol)
     o["isoR"] = _iso(R, "R", tol)
     seff = None
@@ -264,9 +279,9 @@ def measure(A, L, S, R, dtype, rescaled):
                 ov = float(np.real(np.vdot(A, P)))
                 if ov > 0:
                     f = float(np.linalg.norm(P) ** 2) / ov
-            o["d2"] = _snap(float(np.linalg.norm(A - P / f) ** 2), tol)
+            o["d2"] = _snap(float(np.linalg.norm(A - P / f) ** 2), dtype)
             sv = np.linalg.svd(P, compute_uv=False)
-            o["rk"] = bool(np.sum(sv > 100 * tol * max(1.0, sv.max(initial=0.0)) * 1e-2) <= k)
+            o["rk"] = bool(np.sum(sv > tol * max(1.0, sv.max(initial=0.0))) <= k)
             seff = sv[:k]
         else:
             o["dq"], o["d2"] = 999998, OFF
@@ -277,8 +292,8 @@ def measure(A, L, S, R, dtype, rescaled):
     if S is not None and np.all(np.isfinite(S)):
         seff = np.abs(S.astype(complex))
     if seff is not None:
-        o["sum1"] = _snap(float(np.sum(seff)), tol)
-        o["sum2"] = _snap(float(np.sum(seff ** 2)), tol)
+        o["sum1"] = _snap(float(np.sum(seff)), dtype)
+        o["sum2"] = _snap(float(np.sum(seff ** 2)), dtype)
     return o
 
 
@@ -381,6 +396,14 @@ def call_tensor(A, case, get, winfo, rng, variant=0):
     if variant % 2 == 1:
         bond = "bnd"
         kw["bond_ind"] = bond
+    # labels as the call will see them: given orders are kept, unspecified sides come in the tensor's own order
+    if variant % 4 == 3:
+        li = [i for i in T.inds if i in li]
+    if variant % 4 not in (2, 3):
+        ri = [i for i in T.inds if i in ri]
+    ld = tuple(T.ind_size(i) for i in li)
+    rd = tuple(T.ind_size(i) for i in ri)
+    A = np.ascontiguousarray(np.transpose(T.data, [T.inds.index(i) for i in li + ri]).reshape(m, n))
     try:
         with warnings.catch_warnings():
             warnings.simplefilter("ignore")
@@ -389,10 +412,6 @@ def call_tensor(A, case, get, winfo, rng, variant=0):
                     out = qtn.tensor_split(T, li, right_inds=ri, **kw)
                 elif variant % 4 == 3:
                     out = qtn.tensor_split(T, None, right_inds=ri, **kw)
-                    # left_inds=None: the left labels come in the tensor's own order
-                    li = [i for i in T.inds if i in li]
-                    ld = tuple(T.ind_size(i) for i in li)
-                    A = T.to_dense(li, ri)
                 else:
                     out = T.split(li, **kw)
     except Exception as ex:  # noqa
@@ -470,4 +489,4 @@ def err2_of(err, dtype):
         return OFF
     if not np.isfinite(e):
         return OFF
-    return _snap(e * e, tol_of(dtype))
+    return _snap(e * e, dtype)
